@@ -21,7 +21,77 @@ func tierSteps(p Profile, tier string) Profile {
 	return p
 }
 
+func unbondProfile() Profile {
+	p := baseProfile()
+	p.Name = "unbond"
+	p.Weights = map[string]int{KDelegate: 20, KUndelegate: 26, KRedelegate: 12, KClaim: 2, KBlock: 18, KSlashHook: 5, KSlash: 5, KUnbTime: 4, KDonate: 1, KJail: 1, KUnjail: 1, KNatDel: 1}
+	p.FocusDelPct = 60
+	p.UnbTimes = []int64{ns, sec, sec, 3600 * sec, 21 * day}
+	return p
+}
+
+func slashProfile() Profile {
+	p := baseProfile()
+	p.Name = "slash"
+	p.Weights = map[string]int{KDelegate: 22, KUndelegate: 12, KRedelegate: 18, KClaim: 3, KBlock: 14, KSlashHook: 12, KSlash: 10, KUnbTime: 2, KJail: 1, KUnjail: 1, KDelete: 1, KCreate: 1}
+	p.FocusDelPct = 40
+	return p
+}
+
 func init() {
+	register(&Spec{
+		ID:      "C02",
+		Profile: func(tier string) Profile { return tierSteps(unbondProfile(), tier) },
+		Oracles: func() []Oracle { return []Oracle{OracleC02{}} },
+		NonTrivial: func(x *Exec) bool {
+			return x.Has("c02:payout-from-bucket>=2") || x.Has("c02:boundary-T==completion") && x.Has("c02:payout")
+		},
+		Rule: "stateful rapid histories, 'unbond' profile (one delegator favoured so that several undelegations share a (completion, delegator) bucket; unbonding-time changes; block steps landing at completion-1ns / = / +1ns; slashes while pending); oracle = history-derived ledger of pending unbondings vs delegator balance deltas at every end-of-block and vs the stored entries and index keys after every step; non-trivial = a payout from a bucket holding >=2 entries, or a history with a block boundary exactly at a completion time and a payout; distinct = distinct concrete op list",
+	})
+	register(&Spec{
+		ID:      "C07",
+		Profile: func(tier string) Profile { return tierSteps(slashProfile(), tier) },
+		Oracles: func() []Oracle { return []Oracle{OracleC07{}} },
+		NonTrivial: func(x *Exec) bool {
+			return x.Has("slash-hit-unbonding") && x.Has("bucket-mixed") || x.Has("c07:redelegation-slashed")
+		},
+		Rule: "stateful rapid histories, 'slash' profile (callback-level and real staking slashes of every fraction, undelegations/redelegations of a favoured delegator packed into blocks); oracle = per-entry expectation from the history-derived ledger (floor(f*balance) once, scoped; fee-collector gain exact; destination share loss within the order-independent price bracket); non-trivial = a slash hitting a pending unbonding in a history with a mixed (validator/denom) bucket, or a slash hitting a pending redelegation; distinct = distinct concrete op list",
+	})
+	register(&Spec{
+		ID:         "C04",
+		Profile:    func(tier string) Profile { return tierSteps(baseProfile(), tier) },
+		Oracles:    func() []Oracle { return []Oracle{OracleC04{}} },
+		NonTrivial: func(x *Exec) bool { return x.Has("c04:distorted-ratio-multi-position") },
+		Rule:       "stateful rapid histories (core profile: take-rate periods and slashes distort share:token ratios; amounts 1..1e30 and balance+-1); oracle = exact-rational position values before/after every successful delegate/undelegate/redelegate/claim; non-trivial = such an op executed while the asset's share:token ratio != 1 and >=2 positions exist in the asset; distinct = distinct concrete op list",
+	})
+	register(&Spec{
+		ID: "C15",
+		Profile: func(tier string) Profile {
+			p := slashProfile()
+			p.Name = "redelegate"
+			p.Weights = map[string]int{KDelegate: 22, KUndelegate: 8, KRedelegate: 30, KClaim: 2, KBlock: 20, KSlashHook: 3, KSlash: 3, KUnbTime: 3}
+			p.InvalidPct = 4
+			return tierSteps(p, tier)
+		},
+		Oracles: func() []Oracle { return []Oracle{OracleC15{}} },
+		NonTrivial: func(x *Exec) bool {
+			return x.Has("c15:redelegated") && (x.Has("c15:entries-sharing-block") || x.Has("c15:boundary-T==completion") || x.Has("c15:hop-attempt-while-pending"))
+		},
+		Rule: "stateful rapid histories, 'redelegate' profile (chains, fan-in, repeats within a block, full balance and +-1, boundary block times); oracle = exact value move, conservation, history-derived ledger vs records/index/queue after every step, transitive rule both ways; non-trivial = successful redelegation in a history with >=2 entries sharing a completion time, a block boundary at a completion instant, or an onward hop attempted while pending; distinct = distinct concrete op list",
+	})
+	register(&Spec{
+		ID: "C20",
+		Profile: func(tier string) Profile {
+			p := unbondProfile()
+			p.Name = "queries"
+			p.MaxSteps = 25
+			p.Weights[KRedelegate] = 18
+			return tierSteps(p, tier)
+		},
+		Oracles:    func() []Oracle { return []Oracle{&OracleC20{}} },
+		NonTrivial: func(x *Exec) bool { return x.Has("c20:bucket>=2") || x.Has("c20:delegator-multi-pending") },
+		Rule:       "stateful rapid histories ('unbond' profile with more redelegations); after every step every unbonding/redelegation/delegation query is issued for every (delegator, validator, denom) of the world (paginated with varying limits) and compared with an independent enumeration of the primary records; undelegate(balance)/undelegate(balance+1) probes on discarded branches; contract bindings vs gRPC; non-trivial = state with a bucket of >=2 entries or a delegator with >=2 validators/denoms pending; distinct = distinct concrete op list",
+	})
 	register(&Spec{
 		ID:      "C01",
 		Profile: func(tier string) Profile { return tierSteps(baseProfile(), tier) },
